@@ -746,7 +746,7 @@ func runC17(tier string) int {
 		"'fresh process' baselines are computed by subprocesses that run exactly one compilation",
 		"context independence compares a statement's emitted section with every hoisted text / movement label replaced by the data it denotes (numbering and sharing are free, content is not)")
 	return r.Finish(r.Get("evaluations"), r.Get("nontrivial"),
-		"(1) schedules: for every corpus input (many-chunk scripts, label clashes, unknown-font errors against 2- and 3-font configs, all small 'general' programs, optimize on/off) every execution with <= d deviating map-iteration choice points (all n! orders for n <= 4, else reverse, rotations, adjacent transpositions), each run twice; (2) histories: every sequence of <= k compilations (k = 2 over all 640 actions, 3 over 80, thorough: 4 and 5 over 20) over 10 inputs (one of them not valid UTF-8: the lexer panics and the host recovers) x optimize x 2 font files x default font id {config default, -f} x default line length {config, -l} x 2 switch assignments x 2 command configs sharing the maps, each result compared with the same compilation as first action of a fresh process; (3) every top-level statement of an 18-statement family (scripts, texts, movements, marts, mapscripts, raw, const; texts and a movement whose content a poryswitch selects; two texts formatted with a font that has no numLines entry; statements named by the dictionary) among every ordered selection of <= m other statements at every position; (4) files with N texts, N movements, N marts and N scripts for every N up to the bound in the coverage in 4 interleavings: every data block is the block of the statement compiled alone; (5) for each of 31 statement templates a file of N scripts holding it: the output is the outputs of the scripts compiled alone, in order; states/transitions = executions; non-trivial = a deviating schedule, a history of length >= 2 or a context with a neighbour")
+		"(1) schedules: for every corpus input (many-chunk scripts, label clashes, unknown-font errors against 2- and 3-font configs, all small 'general' programs, optimize on/off) every execution with <= d deviating map-iteration choice points (all n! orders for n <= 4, else reverse, rotations, adjacent transpositions), each run twice; (2) histories: every sequence of <= k compilations (k = 2 over all 640 actions, 3 over 80, thorough: 4 and 5 over 20) over 10 inputs (one of them not valid UTF-8: the lexer panics and the host recovers) x optimize x 2 font files x default font id {config default, -f} x default line length {config, -l} x 2 switch assignments x 2 command configs sharing the maps, each result compared with the same compilation as first action of a fresh process; (3) every top-level statement of an 18-statement family (scripts, texts, movements, marts, mapscripts, raw, const; texts and a movement whose content a poryswitch selects; two texts formatted with a font that has no numLines entry; statements named by the dictionary) among every ordered selection of <= m other statements at every position; (4) files with N texts, N movements, N marts and N scripts for every N up to the bound in the coverage in 4 interleavings: every data block is the block of the statement compiled alone; (5) for each of 31 statement templates a file of N scripts holding it: the output is the outputs of the scripts compiled alone, in order; (6) pair-data files: every ordered pair of 24 inline arguments with near-equal dedupe keys in two scripts, each label holding what the argument holds when its script is compiled alone and shared only between equal contents; states/transitions = executions; non-trivial = a deviating schedule, a history of length >= 2 or a context with a neighbour")
 }
 
 // c17ManyDataStatements: files with N texts, N movements, N marts and N small scripts (all different, some texts and
